@@ -10,9 +10,9 @@ import (
 
 func init() {
 	register(&propDef{
-		ID:    "C13",
-		Title: "Any query gets a well-formed reply or none; never panics",
-		Run:   runC13,
+		ID:          "C13",
+		Title:       "Any query gets a well-formed reply or none; never panics",
+		Run:         runC13,
 		Explanation: "Structural necessary conditions, decided on SSA: (labelpop) every expression that drops the first label of a packed name is dominated by a root test on the same name; (recover) the three documented panic barriers exist and store into the error result; (writepath) every response write is preceded by SizeAndDo and Scrub on the same message, and only the listed functions write; (compress-order) the unconditional compression flag is set after Scrub and before the write; (badvers) the EDNS version test dominates every database lookup and its failure branch writes the message it was given; (question) the question-count guard dominates the handler chain. Absence of all panics and packability of all messages are not decided.",
 	})
 }
